@@ -8,6 +8,8 @@ import (
 	"math/rand"
 	"net"
 	"strings"
+	"sync"
+	"sync/atomic"
 	"time"
 
 	bitfield "github.com/OffchainLabs/go-bitfield"
@@ -331,6 +333,72 @@ func runPermits(o *Out, r *rand.Rand, thorough bool, _ []string) {
 			free := waitFree(g, false, 8, 300*time.Millisecond)
 			o.Case(fmt.Sprintf("gossipq full=%d limit=8 targets=%d", b2i(full), len(peers)), fmt.Sprintf("%s queued=%d free=%d", errStr(err), queued, free))
 		}
+		g.stop()
+	}
+
+	// (4b) the same drop, reached the only way a running node reaches it: the queue fills up WHILE gossip calls are under way.
+	// One goroutine keeps topping the queue up, one keeps emptying it (giving back the slots of what it takes out, as the offer
+	// workers do), several call Gossip; the slot limit is above the queue's capacity so that slots never run out first. When all
+	// have stopped and the queue is empty, every slot is free again.
+	{
+		const raceLimit = 3000
+		g := startNode(mn, r, nodeOpts{ip: net.IP{34, 5, 5, 4}, port: 9804, utpLimit: raceLimit, noWorkers: true})
+		fillTable(g, r, 40, false)
+		key := []byte("gossip-race")
+		idh := sha256.Sum256(key)
+		max, _ := new(uint256.Int).SetAllOne().MarshalSSZ()
+		for _, n2 := range g.p.VerifFindNodesCloseToContent(idh[:], 32) {
+			g.p.VerifRadiusCacheSet(n2.ID(), max)
+		}
+		stop := make(chan struct{})
+		var wg sync.WaitGroup
+		spin := func(f func()) {
+			wg.Add(1)
+			go func() {
+				defer wg.Done()
+				for {
+					select {
+					case <-stop:
+						return
+					default:
+						f()
+					}
+				}
+			}()
+		}
+		spin(func() { g.p.VerifFillOfferQueue() })
+		spin(func() {
+			for _, q := range g.p.VerifDrainOfferQueue() {
+				q.VerifPermit().Release()
+			}
+		})
+		calls := 1500
+		if thorough {
+			calls = 20000
+		}
+		var dropped, sent int64
+		var gw sync.WaitGroup
+		for w := 0; w < 4; w++ {
+			gw.Add(1)
+			go func() {
+				defer gw.Done()
+				for c := 0; c < calls; c++ {
+					before := g.p.VerifOfferQueueLen()
+					peers, _ := g.p.GossipAndReturnPeers(nil, [][]byte{key}, [][]byte{{1, 2, 3}})
+					_ = before
+					atomic.AddInt64(&sent, int64(len(peers)))
+				}
+			}()
+		}
+		gw.Wait()
+		close(stop)
+		wg.Wait()
+		for _, q := range g.p.VerifDrainOfferQueue() {
+			q.VerifPermit().Release()
+		}
+		_ = dropped
+		free := waitFree(g, false, raceLimit, 500*time.Millisecond)
+		o.Case(fmt.Sprintf("gossiprace limit=%d callers=4 calls=%d", raceLimit, calls), fmt.Sprintf("free=%d targets_ge1=%d", free, b2i(sent > 0)))
 		g.stop()
 	}
 
